@@ -58,6 +58,14 @@ func (l *LinearRegressor) Init(n *onnx.NodeProto) error {
 		}
 	}
 
+	if l.coefficients == nil {
+		return ops.ErrInvalidAttribute("coefficients", l)
+	}
+
+	if l.targets <= 0 {
+		return ops.ErrInvalidAttribute("targets", l)
+	}
+
 	err := l.coefficients.Reshape(l.targets, ops.NElements(l.coefficients.Shape()...)/l.targets)
 	if err != nil {
 		return err
@@ -73,6 +81,11 @@ func (l *LinearRegressor) Apply(inputs []tensor.Tensor) ([]tensor.Tensor, error)
 	result, err := tensor.MatMul(X, l.coefficients)
 	if err != nil {
 		return nil, err
+	}
+
+	// The intercepts attribute is optional: without it nothing is added.
+	if l.intercepts == nil {
+		return []tensor.Tensor{result}, nil
 	}
 
 	result, intercepts, err := ops.UnidirectionalBroadcast(result, l.intercepts)
